@@ -21,15 +21,21 @@ func init() {
 		Quick: []H{
 			{Pkg: "scipipe", Fn: "VxH14a", Params: p("L", 6), MustReach: []string{"both-built"}, MustAssert: []string{"C14.injective", "C14.stable"}, Native: true},
 			{Pkg: "scipipe", Fn: "VxH14len", Params: p("lo", 190, "hi", 215), MustReach: []string{"built"}, MustAssert: []string{"C14.len", "C14.segment"}, Native: true},
+			{Pkg: "scipipe", Fn: "VxH14name", Params: p("L", 3), MustReach: []string{"both-built"}, MustAssert: []string{"C14.process-name-is-part-of-identity", "C14.segment"}, Native: true},
+			{Pkg: "scipipe", Fn: "VxH14keys", MustReach: []string{"both-built"}, MustAssert: []string{"C14.stable-under-map-order"}},
 		},
 		Thorough: []H{
 			{Pkg: "scipipe", Fn: "VxH14a", Params: p("L", 8), MustReach: []string{"both-built"}, MustAssert: []string{"C14.injective", "C14.stable"}, Native: true},
 			{Pkg: "scipipe", Fn: "VxH14len", Params: p("lo", 0, "hi", 300), MustReach: []string{"built"}, MustAssert: []string{"C14.len", "C14.segment"}, Native: true},
+			{Pkg: "scipipe", Fn: "VxH14name", Params: p("L", 4), MustReach: []string{"both-built"}, MustAssert: []string{"C14.process-name-is-part-of-identity", "C14.segment"}, Native: true},
+			{Pkg: "scipipe", Fn: "VxH14keys", MustReach: []string{"both-built"}, MustAssert: []string{"C14.stable-under-map-order"}},
+			{Pkg: "scipipe", Fn: "VxH14b", Params: p("L", 2), MustReach: []string{"both-built"}, MustAssert: []string{"C14.injective-all-components", "C14.stable-under-map-order"}},
 		},
 		Bounds: map[string]string{
 			"in-path length": "<= 6 bytes quick / <= 8 thorough, alphabet [ab./_-], clean-normal (no //, no inner ./, .. only leading)",
 			"param value":    "<= 2 bytes",
-			"process name":   "fixed \"p\" (H14a); a^n for n in 190..215 quick / 0..300 thorough (H14len)",
+			"param/tag names": "fixed (H14a/b); two distinct symbolic one-byte names over [0-9A-Za-z._-] with symbolic map iteration order (H14keys)",
+			"process name":   "fixed \"p\" (H14a); a^n for n in 190..215 quick / 0..300 thorough (H14len); two symbolic names of <= 3 (4) printable ASCII bytes incl. upper case, blanks and / (H14name)",
 			"loop unrolling": "splitAllPaths walk-up loop forked per iteration until the solver proves the exit (segments + 1)",
 		},
 		Outside:     []string{"paths that are not clean-normal", "longer strings", "SHA-1 collisions (ideal hash)"},
@@ -46,18 +52,20 @@ func init() {
 			{Pkg: "scipipe", Fn: "VxH13out", Params: p("L", 5, "class", 1), MustReach: []string{"executed"}, MustAssert: []string{"C13.moved-to-declared-path", "C13.write-confined-to-tempdir", "C13.tempdir-subdir-created"}},
 			{Pkg: "scipipe", Fn: "VxH13outTpl", Params: p("L", 2), MustReach: []string{"executed"}, MustAssert: []string{"C13.moved-to-declared-path"}},
 			{Pkg: "scipipe", Fn: "VxH13extra", Params: p("L", 2), MustReach: []string{"executed"}, MustAssert: []string{"C13.extra-file-keeps-relative-place"}},
+			{Pkg: "scipipe", Fn: "VxH13two", Params: p("L", 3), MustReach: []string{"executed"}, MustAssert: []string{"C13.two.tempdir-subdir-created", "C13.two.moved-to-declared-path"}},
 		},
 		Thorough: []H{
 			{Pkg: "scipipe", Fn: "VxH13in", Params: p("L", 8, "class", 1), MustReach: []string{"task-built"}, MustAssert: []string{"C13.input-resolves"}, Native: true},
 			{Pkg: "scipipe", Fn: "VxH13out", Params: p("L", 7, "class", 1), MustReach: []string{"executed"}, MustAssert: []string{"C13.moved-to-declared-path", "C13.write-confined-to-tempdir", "C13.tempdir-subdir-created"}},
 			{Pkg: "scipipe", Fn: "VxH13outTpl", Params: p("L", 3), MustReach: []string{"executed"}, MustAssert: []string{"C13.moved-to-declared-path"}},
 			{Pkg: "scipipe", Fn: "VxH13extra", Params: p("L", 3), MustReach: []string{"executed"}, MustAssert: []string{"C13.extra-file-keeps-relative-place"}},
+			{Pkg: "scipipe", Fn: "VxH13two", Params: p("L", 4), MustReach: []string{"executed"}, MustAssert: []string{"C13.two.tempdir-subdir-created", "C13.two.moved-to-declared-path"}},
 		},
 		Bounds: map[string]string{
 			"output path P":  "every string over [0-9A-Za-z/._-] of <= 5 bytes quick / <= 7 thorough that names a file and has '..' only as leading segments (case split on the positions of / . _, other bytes symbolic); plus 8 templates with placeholder-like text (__parent__, __fsroot__/) around symbolic names of <= 2 / <= 3 bytes",
 			"input path q":   "every such string of <= 6 bytes quick / <= 8 thorough",
 			"extra file X":   "a, a/b, a__parent__b, __fsroot__/a with symbolic names of <= 2 / <= 3 bytes",
-			"task":           "one command process, one output (or one input), no parameters",
+			"task":           "one command process, one output (or one input), no parameters; plus one task with two outputs in two symbolic sibling directories of <= 3 (4) bytes each (e.g. res/ and res2/), symbolic map order",
 		},
 		Outside: []string{"paths with '..' after a named segment (x/../y)", "longer paths", "destination directories of absolute and ../ outputs are assumed to exist", "symbolic links"},
 		Assumptions: append([]string{
@@ -79,10 +87,13 @@ func init() {
 	q = append(q, H{Pkg: "scipipe", Fn: "VxH15out", Params: p("L", 3, "V", 2), MustReach: []string{"outpath", "default"}, MustAssert: []string{"C15.outpath-expansion", "C15.default-name"}})
 	th = append(th, H{Pkg: "scipipe", Fn: "VxH15missing", MustReach: []string{"tried"}, MustAssert: []string{"C15.missing-value-stops", "C15.missing-value-no-task"}})
 	th = append(th, H{Pkg: "scipipe", Fn: "VxH15out", Params: p("L", 4, "V", 3), MustReach: []string{"outpath", "default"}, MustAssert: []string{"C15.outpath-expansion", "C15.default-name"}})
+	// modifier chains on a joined (sub-stream) placeholder, before and after the join directive
+	q = append(q, H{Pkg: "scipipe", Fn: "VxH18join", Params: p("L", 3, "n", 1), MustReach: []string{"task-built"}, MustAssert: []string{"C18.joined-in-order"}})
+	th = append(th, H{Pkg: "scipipe", Fn: "VxH18join", Params: p("L", 3, "n", 2), MustReach: []string{"task-built"}, MustAssert: []string{"C18.joined-in-order"}})
 	regCheck(&Check{
 		ID: "C15", Quick: q, Thorough: th,
 		Bounds: map[string]string{
-			"patterns":      "11 command patterns and 5 output-path patterns + the default name (placeholder kinds i/o/p/t, modifier chains of basename, dirname, %suffix, s/a/b/, repeated placeholders) - enumerated, not symbolic",
+			"patterns":      "11 command patterns and 5 output-path patterns + the default name of two default-named out-ports (placeholder kinds i/o/p/t, modifier chains of basename, dirname, %suffix, s/a/b/, repeated placeholders), a joined placeholder with a %suffix modifier before / after join:SEP - enumerated, not symbolic",
 			"input path":    "every valid file path of <= 4 bytes quick / <= 6 thorough over [0-9A-Za-z/._-] (case split on length and on the positions of / and . where modifiers apply)",
 			"param and tag": "every non-empty value of <= 3 bytes (quick out-path harness: <= 2) of printable ASCII without { } | and whitespace",
 			"map order":     "iteration order of every `range` over a map is a symbolic choice (out-path / default-name harness)",
